@@ -122,3 +122,44 @@ func h2cAwait(done chan struct{}, label string) {
 		vfAssert(false, label)
 	}
 }
+
+// h2cPause lets the other goroutines of a native replay run until they block (30 ms); no-op in the engine.
+func h2cPause() {
+	if !vfSymbolic() {
+		time.Sleep(30 * time.Millisecond)
+	}
+}
+
+// h2cGhost collects assertion failures raised on goroutines other than the harness's main goroutine. In the engine
+// the assertion fires where it stands; natively (where a panic on a spawned goroutine would kill the test binary) the
+// first failure is recorded and re-raised by h2cGhost.report on the main goroutine.
+type h2cGhost struct {
+	mu     sync.Mutex
+	failed string
+}
+
+func (g *h2cGhost) assert(cond bool, label string) {
+	if vfSymbolic() {
+		vfAssert(cond, label)
+		return
+	}
+	if !cond {
+		g.mu.Lock()
+		if g.failed == "" {
+			g.failed = label
+		}
+		g.mu.Unlock()
+	}
+}
+
+func (g *h2cGhost) report() {
+	if vfSymbolic() {
+		return
+	}
+	g.mu.Lock()
+	f := g.failed
+	g.mu.Unlock()
+	if f != "" {
+		vfAssert(false, f)
+	}
+}
